@@ -258,6 +258,7 @@ func mutators() []mutator {
 			alpha := method("Alpha"+id, "GET", "/zone/{id}", pfx)
 			c.Methods = append([]scen.Method{zeta, alpha}, c.Methods...)
 		}},
+		{"C.declared-in-a-grouped-type-block", func(u *scen.Unit, id string) { u.Controllers[2].Grouped = true }},
 		{"B.no-leading-slash-route", func(u *scen.Unit, id string) { u.Controllers[1].Methods[0].Route = scen.S("one") }},
 	}
 }
